@@ -478,12 +478,12 @@ pub fn explore(s: &Scenario, shard: usize, shards: usize, deadline: Option<Insta
     let mut confirmed = vec![];
     // (replays run to their end: the exploration's wall-clock deadline does not cut them. An
     // enumeration inside one execution makes no hidden choice - single task, no scheduler or
-    // environment answer - and replaying it means enumerating everything again, twice: once the
-    // budget is used up its failures are taken as they are.)
+    // environment answer - and replaying it means enumerating everything again, twice: when that
+    // took more than a few seconds, or the budget is used up, its failures are taken as they are.)
     let late = deadline.map(|d| Instant::now() > d).unwrap_or(false);
     crate::rt::set_deadline(None);
     for v in std::mem::take(&mut acc.rep.violations) {
-        if s.loop_body && late {
+        if s.loop_body && (late || t0.elapsed().as_secs() >= 5) {
             confirmed.push(v);
             continue;
         }
